@@ -5,6 +5,7 @@
 # 3. applies the patch to /repo, runs ./check <property>, reverts /repo
 set -u
 id="$1"; prop="$2"; src="$3"; pkg="$4"; run="${5:-.}"
+if [ -n "$(git -C /repo status --porcelain --untracked-files=no)" ]; then echo "refusing: /repo has uncommitted changes (commit contract edits first; this script reverts the working tree)"; exit 2; fi
 . /verif/env.sh
 dst=/verif/seeded/$id
 mkdir -p "$dst"
